@@ -52,13 +52,14 @@ txt += ("\nLessons that were turned into input classes everywhere they apply: in
         "tensors with 1x1 bonds) as operands, charge-diagonal MPOs, empty interior bonds (which exposed defect F11), graded matrices for Arnoldi (the tolerance is now the\n"
         "MGS bound eps*cond itself), and complete manifolds in non-minimal labellings, for which an independent dense reference implementation of the documented integrator\n"
         "(pvm/tdvp_ref.py) decides whether the algorithm itself is exact;\n"
-        "from round 7 (8 of 20 missed at first): an operator and a state labelled in DIFFERENT but equally valid gauges (physical labels of the MPO shifted by a constant, or\n"
+        "from round 7 (9 of 20 missed at first): an operator and a state labelled in DIFFERENT but equally valid gauges (physical labels of the MPO shifted by a constant, or\n"
         "all zero for a charge-diagonal operator: algorithms must take the labels of the state), vectors of 2^10..2^14 entries that are nearly of low rank across a cut\n"
         "(singular-value ratios 1e-8..1e-13 at zero tolerance), every coefficient kind of the build workloads also in the gauge-transform workload (an identically zero\n"
         "antisymmetrised interaction), Hamiltonians with long-range terms around SPECTATOR sites (which also widened known finding C10 to product-reducible Hamiltonians),\n"
         "a tolerance sitting exactly ON a cumulative Schmidt weight in exact arithmetic (ties decided without rounding slack), phase-structured Krylov data (i * real matrix\n"
         "with a real start vector: images alternate between exactly real and exactly imaginary), coefficient callables defined on the activity domain of an edge only,\n"
-        "and graphs whose augmenting paths / alternating trees are 600..3000 vertices deep (which exposed defect F12).\n\n"
+        "graphs whose augmenting paths / alternating trees are 600..3000 vertices deep (which exposed defect F12), and operator graphs with duplicated path\n"
+        "prefixes through identical operator lists whose twin nodes carry equal or different labels.\n\n"
         "Note on the repository suite: `test_krylov.py::test_eigh_krylov` fails in about 2 % of runs on the unchanged tree (12 of 600 seeded replays of its body, the\n"
         "same number before and after fix `3c1fa1a`): its tolerance on the second Ritz value is statistical. It is unrelated to any change made here.\n")
 d = open('/verif/DESIGN.md').read()
